@@ -433,7 +433,7 @@ def eval_declaration_split(ctx, R="C13.1"):
 
     want1 = [("declare", "a"), ("assign", "a", "op", "init-a"), ("declare", "b"), ("declare", "c"), ("assign", "c", "op", "init-c")]
     want2 = [("declare", "a"), ("declare", "b"), ("assign-tuple", ("a", "b"), "op", "tuple-init")]
-    bad1, bad2 = [], []
+    bad1, bad2, badloc = [], [], []
     # for every declared type: the expansion does not depend on it
     for tname, xt in (("var", E("VariableType", "Var")), ("signal", S("Signal", E("SignalType", "Intermediate"), ("L", ()))), ("component", E("VariableType", "Component"))):
         try:
@@ -445,12 +445,17 @@ def eval_declaration_split(ctx, R="C13.1"):
             w.stubs = {}
             return ctx.missing(R, "ast_shortcuts::split_declaration/evaluation", "the declaration shortcuts use a construct the evaluator cannot interpret (fail closed): %s" % u)
         g1, g2, g3 = block(r1), block(r2), block(r3)
+        for tag_, r_ in (("T a = e1, b, c = e3", r1), ("T (a, b) op e", r2)):
+            for x in (listed(r_[3].get("initializations")) or []) if isinstance(r_, tuple) and len(r_) > 3 else []:
+                if isinstance(x, tuple) and len(x) > 3 and x[0] == "V" and x[3].get("meta") is not mh[0]:
+                    badloc.append("%s `%s`: the %s statement for `%s` is located at %s, not at the declaration" % (tname, tag_, x[2], x[3].get("var") or x[3].get("name") or "the tuple", x[3].get("meta")[1] if isinstance(x[3].get("meta"), tuple) and len(x[3].get("meta")) > 1 else x[3].get("meta")))
         if not (g1 == want1 and r1[3].get("xtype") == xt):
             bad1.append("%s a = e1, b, c = e3 expands to %s" % (tname, g1))
         if not (g2 == want2 and g3 == want2[:2]):
             bad2.append("%s (a, b) op e expands to %s, without initialiser to %s" % (tname, g2, g3))
     w.stubs = {}
     ctx.check(R, "ast_shortcuts::split_declaration_into_single_nodes/expansion", not bad1, "; ".join(bad1[:2]) or "`T a = e1, b, c = e3` expands to declare a, a op e1, declare b, declare c, c op e3 for every declared type (each initialiser directly after its own declaration, with the operator written)", site(SHF, f1))
+    ctx.check(R, "ast_shortcuts::split_declaration/every-statement-located-at-the-declaration", not badloc, "; ".join(badloc[:2]) or "every declaration and assignment a declaration expands to carries the location of the declaration statement (a finding about `signal s <-- e;` points at the statement, not at `e`)", site(SHF, f1))
     ctx.check(R, "ast_shortcuts::split_declaration_into_single_nodes_and_multi_substitution/expansion", not bad2, "; ".join(bad2[:2]) or "`T (a, b) op e` expands to declare a, declare b, (a, b) op e with the operator written, for every declared type", site(SHF, f2))
 
 
